@@ -17,6 +17,8 @@ pub struct SyncSys {
     pub avoids: Vec<bool>,
     pub undo_points: bool,
     pub deletes: bool,
+    /// start from a world in which T1{p=base} exists on every replica and is synced
+    pub populated: bool,
     /// oracles
     pub c01: bool,
     pub c12: bool,
@@ -41,6 +43,7 @@ impl SyncSys {
             avoids: vec![false],
             undo_points: false,
             deletes: true,
+            populated: false,
             c01: true,
             c12: false,
             c14: false,
@@ -194,7 +197,13 @@ impl Sys for SyncSys {
     type Action = Act;
 
     fn init(&self) -> World {
-        World::new(self.r)
+        let mut w = World::new(self.r);
+        if self.populated {
+            do_local(&mut w, &Act::Create { r: 0, t: 1 }).unwrap();
+            do_local(&mut w, &Act::Update { r: 0, t: 1, p: "p".into(), v: Some("base".into()), ts: 0 }).unwrap();
+            w = quiesce(&w).expect("populated base quiesces").1;
+        }
+        w
     }
 
     fn actions(&self, s: &World, _left: usize) -> Vec<Act> {
@@ -204,7 +213,9 @@ impl Sys for SyncSys {
             for &t in &self.tasks {
                 let present = obs.tasks.contains_key(&crate::world::replicas::tid(t));
                 if !present {
-                    out.push(Act::Create { r, t });
+                    if self.deletes || !self.populated {
+                        out.push(Act::Create { r, t });
+                    }
                 } else {
                     for (p, v, ts) in &self.updates {
                         out.push(Act::Update {
@@ -265,21 +276,30 @@ impl Sys for SyncSys {
     fn check(&self, s: &World, _trace: &[Act]) -> Result<bool, String> {
         let w = s;
         let obs = world_obs(w);
-        for (i, o) in obs.iter().enumerate() {
-            replica_invariant(&w.chain, o, i)?;
+        // a state is non-trivial when its quiescing run has to rebase something: some replica has
+        // pending operations while another has pending operations or unseen versions; or when
+        // it contains a sync that produced several versions
+        let pending = obs.iter().filter(|o| !o.unsynced.is_empty()).count();
+        let behind = obs.iter().filter(|o| Some(o.base) != w.chain.latest() && !w.chain.versions.is_empty()).count();
+        let mut nontrivial = (pending >= 1 && (behind >= 1 || pending >= 2)) || s.multi_version_syncs > 0;
+        if self.c01 {
+            for (i, o) in obs.iter().enumerate() {
+                replica_invariant(&w.chain, o, i)?;
+            }
+            quiesce(w)?;
         }
-        let mut nontrivial = false;
-        if self.c01 || self.c12 {
-            let (tasks, qw) = quiesce(w)?;
-            // non-trivial: the quiescing run had to transform something, i.e. at least two
-            // replicas had pending operations or unseen versions, or a multi-version sync occurred
-            let pending = obs.iter().filter(|o| !o.unsynced.is_empty()).count();
-            let behind = obs.iter().filter(|o| Some(o.base) != w.chain.latest() && !w.chain.versions.is_empty()).count();
-            nontrivial = (pending >= 1 && (behind >= 1 || pending >= 2)) || s.multi_version_syncs > 0;
-            if self.c12 && fresh_from_snapshot(&qw.chain, &tasks)? {
+        if self.c12 {
+            let want = ops::replay_chain(w.chain.all_segments()).map_err(|e| format!("wire-format: {e}"))?;
+            if fresh_from_snapshot(&w.chain, &want)? {
                 self.fresh_from_snapshot.fetch_add(1, Ordering::Relaxed);
                 nontrivial = true;
+            } else {
+                nontrivial = false;
             }
+        }
+        if self.c14 && !self.c01 {
+            // non-trivial for the wire-format oracle: the chain carries at least one version
+            nontrivial = !w.chain.versions.is_empty() && nontrivial;
         }
         Ok(nontrivial)
     }
@@ -288,8 +308,8 @@ impl Sys for SyncSys {
 /// The system (with the oracles of `prop`) used to replay a trace found in `space`.
 pub fn sys_for(prop: &str, _space: &str) -> SyncSys {
     let mut s = SyncSys::new(4);
-    s.c01 = true;
+    s.c01 = prop == "C01" || prop == "C02" || prop == "C04";
     s.c12 = prop == "C12";
-    s.c14 = prop == "C14" || prop == "C01";
+    s.c14 = prop == "C14";
     s
 }
